@@ -22,7 +22,7 @@ def make_executor(exname, **opts):
 
 
 def run_with_events(prog, exname="single-threaded", exec_kwargs=None, optimize_graph=True, spec_kwargs=None,
-                    store=None, resume=None, executor=None):
+                    store=None, resume=None, executor=None, prebuilt=None):
     import cubed
 
     events = []
@@ -51,11 +51,15 @@ def run_with_events(prog, exname="single-threaded", exec_kwargs=None, optimize_g
     if store is not None:
         skw["intermediate_store"] = store
     spec = cubed.Spec(**skw)
-    env = G.build(prog, spec)
-    outs = [env[o] for o in prog["outs"]]
+    if prebuilt is not None:
+        env = {}
+        outs = list(prebuilt(spec))       # e.g. the arrays returned by store(..., compute=False)
+    else:
+        env = G.build(prog, spec)
+        outs = [env[o] for o in prog["outs"]]
     ex = executor if executor is not None else make_executor(exname)
     res = cubed.compute(*outs, executor=ex, callbacks=[CB()], optimize_graph=optimize_graph, resume=resume,
-                        **(exec_kwargs or {}))
+                        **({"_return_in_memory_array": False} if prebuilt is not None else {}), **(exec_kwargs or {}))
     dag = info["dag"]
     plan = info["plan"]
     nodes = [node_id(n) for n in dag.nodes]
